@@ -161,6 +161,16 @@ def gen_program(rnd, n_ops, pid):
             ops.append({"op": "mp-complete", "bucket": up["bucket"], "key": up["key"], "upload": u, "parts": parts})
         elif ups:
             u = rnd.choice(sorted(ups)); ops.append({"op": "mp-abort", "bucket": ups[u]["bucket"], "key": ups[u]["key"], "upload": u})
+    # every program ends with one upload whose parts are listed page by page (max-parts 1 and 2, following the markers)
+    u = len(ups); k_ = "walk/parts"
+    ops.append({"op": "mp-create", "bucket": bks[0], "key": k_, "upload": u, "content": CONTENT[1], "meta": METAS[1]})
+    for n in (1, 2, 3, 5):
+        ops.append({"op": "mp-part", "bucket": bks[0], "key": k_, "upload": u, "n": n, "size": 17 + n, "salt": newsalt()})
+    for mx in (1, 2):
+        for marker in (0, 1, 2, 3, 5):
+            ops.append({"op": "mp-list-parts", "bucket": bks[0], "key": k_, "upload": u, "max": mx, "marker": marker})
+    ops.append({"op": "mp-list-uploads", "bucket": bks[0], "key": k_, "upload": u, "max": 1000, "marker": 0})
+    ops.append({"op": "mp-abort", "bucket": bks[0], "key": k_, "upload": u})
     return ops
 
 
